@@ -8,8 +8,10 @@
 #include <errno.h>
 #include <fcntl.h>
 #include <malloc.h>
+#include <grp.h>
 #include <pthread.h>
 #include <pty.h>
+#include <pwd.h>
 #include <signal.h>
 #include <stdarg.h>
 #include <stdint.h>
@@ -19,6 +21,7 @@
 #include <termios.h>
 #include <unistd.h>
 #include <sys/ioctl.h>
+#include <sys/prctl.h>
 #include <sys/socket.h>
 #include <sys/stat.h>
 #include <sys/syscall.h>
@@ -106,13 +109,33 @@ static int bind_dgram(const char *path) {
 /* "stack <KiB>": the following failing-exec calls are issued from a fresh thread with a stack of that size
  * (the library runs on the caller's stack: its stack use must not depend on the configuration) */
 static size_t STACK_KIB = 0;
+/* "errno <n>": errno as the following calls find it (a previous exec that failed, any earlier libc failure of the caller); default 0 */
+static int PRESET_ERRNO = 0;
 struct thr_call { int is_execv; int r; int e; };
 static void *thr_call_main(void *p) {
     struct thr_call *x = p;
-    errno = 0;
+    errno = PRESET_ERRNO;
     x->r = x->is_execv ? execv(verif_expect.path, verif_expect.argv) : execve(verif_expect.path, verif_expect.argv, verif_expect.envp);
     x->e = errno;
     return NULL;
+}
+
+/* "libcbuf 1": the strings of the following calls live in libc's own static result buffers (getpwuid / getgrgid / getpwnam:
+ * what a launcher does with execv(pw->pw_shell, {pw->pw_name, ...})).  The library shares libc with the caller: whatever it looks up
+ * while logging must not go through the non-reentrant interfaces, or the caller's arguments change under its feet. */
+static int LIBCBUF = 0;
+static char *into_static(char *area, size_t room, char *s) {
+    size_t n = strlen(s) + 1;
+    if (!area || n > room) return s;
+    memcpy(area, s, n);
+    return area;
+}
+static void place_in_libc_buffers(vbytes *path, vlist *argv, vlist *envp) {
+    struct passwd *pw = getpwuid(1); struct group *gr = getgrgid(1); struct passwd *pn = getpwnam("daemon");
+    /* the record's strings start at pw_name / gr_name in glibc's static buffer (1024 bytes at least) */
+    if (pw && !path->isnull) path->p = into_static(pw->pw_name, 200, path->p);
+    if (gr && !argv->isnull && argv->v[0]) argv->v[0] = into_static(gr->gr_name, 200, argv->v[0]);
+    if (pn && pn != pw && !envp->isnull && envp->v[0]) envp->v[0] = into_static(pn->pw_name, 200, envp->v[0]);
 }
 
 static int do_call(int nf, char **f) {
@@ -121,6 +144,7 @@ static int do_call(int nf, char **f) {
     int is_execv = !strcmp(f[1], "execv");
     vbytes path = parse_bytes(f[2]); vlist argv = parse_list(f[3]); vlist envp = parse_list(f[4]);
     int mode = atoi(f[5]), ret = atoi(f[6]), err = atoi(f[7]);
+    if (LIBCBUF) place_in_libc_buffers(&path, &argv, &envp);
     cur_idx++;
     verif_expect.path = path.isnull ? NULL : path.p; verif_expect.argv = argv.isnull ? NULL : argv.v; verif_expect.envp = envp.isnull ? NULL : envp.v;
     verif_expect.is_execv = is_execv; verif_expect.mode = mode; verif_expect.ret = ret; verif_expect.err = err; verif_expect.call_index = cur_idx;
@@ -151,7 +175,7 @@ static int do_call(int nf, char **f) {
             pthread_join(th, NULL);
             r = x.r; e = x.e;
         } else {
-            errno = 0;
+            errno = PRESET_ERRNO;
             r = is_execv ? execv(verif_expect.path, verif_expect.argv) : execve(verif_expect.path, verif_expect.argv, verif_expect.envp);
             e = errno;
         }
@@ -186,6 +210,10 @@ static void handle_line(int nf, char **f) {
     if (!strcmp(f[0], "sink") && nf >= 3) {
         if (!strcmp(f[1], "file") && nf >= 4) { struct verif_sink *s = new_sink(SINK_FILE, f[2]); strncpy(s->path, f[3], sizeof s->path - 1); struct stat st; s->offset = stat(s->path, &st) == 0 ? st.st_size : 0; }
         else if (!strcmp(f[1], "pipe") && nf >= 4) { int p[2]; if (pipe2(p, O_CLOEXEC)) exit(3); fcntl(p[1], F_SETPIPE_SZ, 1 << 20); int tfd = atoi(f[3]); dup2(p[1], tfd); close(p[1]); struct verif_sink *s = new_sink(SINK_PIPE, f[2]); s->fd = p[0]; }
+        else if (!strcmp(f[1], "sockpair") && nf >= 4) { /* descriptor <n> is one end of a stream socket pair (a service started by systemd/inetd/sshd) */
+            int p[2]; if (socketpair(AF_UNIX, SOCK_STREAM | SOCK_CLOEXEC, 0, p)) exit(3);
+            int big = 1 << 21; setsockopt(p[1], SOL_SOCKET, SO_SNDBUF, &big, sizeof big); setsockopt(p[0], SOL_SOCKET, SO_RCVBUF, &big, sizeof big);
+            int tfd = atoi(f[3]); dup2(p[1], tfd); close(p[1]); struct verif_sink *s = new_sink(SINK_PIPE, f[2]); s->fd = p[0]; }
         else if (!strcmp(f[1], "dgram") && nf >= 4) { struct verif_sink *s = new_sink(SINK_DGRAM, f[2]); strncpy(s->path, f[3], sizeof s->path - 1); s->fd = bind_dgram(f[3]); }
         else if (!strcmp(f[1], "devlog") && nf >= 4) { struct verif_sink *s = new_sink(SINK_DGRAM, f[2]); strncpy(s->path, f[3], sizeof s->path - 1); s->fd = bind_dgram(f[3]); strncpy(verif_expect.devlog_redirect, f[3], sizeof verif_expect.devlog_redirect - 1); }
         else if (!strcmp(f[1], "tty")) {
@@ -206,7 +234,25 @@ static void handle_line(int nf, char **f) {
     } else if (!strcmp(f[0], "stdin") && nf >= 2) {
         if (!strcmp(f[1], "closed")) close(0);
         else if (!strcmp(f[1], "null")) { int fd = open("/dev/null", O_RDONLY); dup2(fd, 0); close(fd); }
+    } else if (!strcmp(f[0], "rename") && nf >= 3) {
+        /* log rotation between two calls of one process: what was there moves away, the next record must create the file anew */
+        char *from = subst(f[1], strlen(f[1]), NULL), *to = subst(f[2], strlen(f[2]), NULL);
+        (void)!rename(from, to);
+        struct stat st; long tosz = stat(to, &st) == 0 ? (long) st.st_size : 0;
+        for (int i = 0; i < verif_expect.nsinks; i++) {
+            struct verif_sink *k = &verif_expect.sinks[i];
+            if (k->kind == SINK_FILE && !strcmp(k->path, from)) k->offset = 0;
+            else if (k->kind == SINK_FILE && !strcmp(k->path, to)) k->offset = tosz;
+        }
+    } else if (!strcmp(f[0], "comm") && nf >= 2) {
+        /* the caller's own command name ("@PID@" = its pid): what its children find as their parent's name in /proc/<pid>/stat */
+        vbytes b = parse_bytes(f[1]); char nm[64], pid[16]; snprintf(pid, sizeof pid, "%d", (int) getpid());
+        char *at = strstr(b.p, "@PID@");
+        if (at) snprintf(nm, sizeof nm, "%.*s%s%s", (int)(at - b.p), b.p, pid, at + 5); else snprintf(nm, sizeof nm, "%s", b.p);
+        prctl(PR_SET_NAME, nm, 0, 0, 0);
     } else if (!strcmp(f[0], "stack") && nf >= 2) { STACK_KIB = (size_t) atol(f[1]);
+    } else if (!strcmp(f[0], "libcbuf") && nf >= 2) { LIBCBUF = atoi(f[1]);
+    } else if (!strcmp(f[0], "errno") && nf >= 2) { PRESET_ERRNO = atoi(f[1]);
     } else if (!strcmp(f[0], "call")) { do_call(nf, f);
     } else if (!strcmp(f[0], "state")) { verif_sample_state(nf >= 2 ? f[1] : "mark");
     }
